@@ -209,9 +209,13 @@ let make_oracles cfg : oracles =
     (* the certificate stage of is_authenticated(): no TLS in this channel - tls_verify() returns 0 at once (the TLS engine
        overrides o_tls through orc and takes o_tlsverify from the case: cfg ccert) *)
     o_tls = false;
-    o_tlsverify = (match cfg "ccert" "none" with
-        | "listed" -> TV_yes (bytes_of_str (cfg "ccname" "client@example.net"))
-        | _ -> TV_no) }
+    (* what tls_verify() does behind its guard in the scratch configuration of harness/tlssession/runner.py (TLS 1.3 client):
+       no control/tlsclients or no control/clientca.pem: 0; the client did not offer post-handshake authentication:
+       SSL_verify_client_post_handshake() fails, tls_out() writes 454 and -EPROTO comes back; otherwise the request goes out
+       and tls_check_cert() looks for the certificate before the client's answer can have arrived: 0 *)
+    o_tlsverify = (if cfg "tlsclients" "0" <> "1" || cfg "clientca" "0" <> "1" then TV_no
+                   else if cfg "pha" "0" <> "1" then TV_err (true, HEPROTO)
+                   else TV_no) }
 
 (* ---- end copy ---- *)
 
@@ -420,7 +424,10 @@ let spec fs obs = match fs with
              | Tok "O" -> OOffer | Tok "F" -> OFail | Tok "S" -> OSwitch | Tok "U" -> OUnm | Tok _ -> OX) toks in
          let bad = ref [] in
          if not (spec_ok_C17 sc o.o_certfile o.o_tlsinit otoks) then bad := ["C17-observation"];
-         let simple = (try bad := !bad @ simple_check o items toks hand; true with Not_simple -> false) in
+         (* a failing tls_verify() answers one RCPT TO / MAIL FROM with two replies (454 from tls_out(), then smtploop's reply for
+            the error code): "the i-th reply belongs to the i-th segment" does not hold there *)
+         let double_reply = (match o.o_clear.o_tlsverify with TV_err (_, _) -> true | _ -> false) in
+         let simple = (try if double_reply then raise Not_simple; bad := !bad @ simple_check o items toks hand; true with Not_simple -> false) in
          if !bad = [] then (if simple then "ok+trace" else "ok") else "bad:" ^ String.concat "," !bad
        with Bad_case -> "pre")
   | _ -> "BADCASE"
